@@ -20,7 +20,9 @@ class Canon(ast.NodeTransformer):
     def __init__(self):
         self.flipped = 0
         self.folded = 0
+        self.stripped = 0
         self._skip = 0
+        self._skip_strip = False
 
     def visit_FunctionDef(self, node):
         skip = node.name in ("__eq__", "__ne__")
@@ -41,6 +43,58 @@ class Canon(ast.NodeTransformer):
                 return ast.copy_location(new, node)
             if isinstance(o, ast.UnaryOp) and isinstance(o.op, ast.Not) and False:
                 return o.operand
+        return node
+
+    def visit_Compare(self, node):
+        self.generic_visit(node)
+        if self._skip or len(node.ops) != 1:
+            return node
+        op, right = node.ops[0], node.comparators[0]
+        # constant on the right for the symmetric operators (`2 == x` -> `x == 2`)
+        if isinstance(op, (ast.Eq, ast.NotEq, ast.Is, ast.IsNot)) and isinstance(node.left, ast.Constant) and not isinstance(right, ast.Constant):
+            node.left, node.comparators = right, [node.left]
+            self.folded += 1
+        # one literal container kind in membership tests (`x in (a, b)` -> `x in [a, b]`)
+        if isinstance(op, (ast.In, ast.NotIn)) and isinstance(right, (ast.Tuple, ast.Set)):
+            node.comparators = [ast.copy_location(ast.List(elts=right.elts, ctx=ast.Load()), right)]
+            self.folded += 1
+        return node
+
+    def _strip_logging(self, stmts):
+        """logging has no part in any property: drop `LOGGER.x(..)` / `logger.x(..)` statements"""
+        out = []
+        for s in stmts:
+            if isinstance(s, ast.Expr) and isinstance(s.value, ast.Call) and isinstance(s.value.func, ast.Attribute) and isinstance(s.value.func.value, ast.Name) and s.value.func.value.id.lower().endswith("logger") and s.value.func.attr in ("debug", "info", "warning", "error", "exception", "critical", "log"):
+                # only when evaluating the arguments cannot do anything: constants, plain names, and
+                # f-strings / concatenations of those (an attribute read or a call in a log argument can raise)
+                def inert(e):
+                    if isinstance(e, (ast.Constant, ast.Name)):
+                        return True
+                    if isinstance(e, ast.JoinedStr):
+                        return all(inert(v) for v in e.values)
+                    if isinstance(e, ast.FormattedValue):
+                        return inert(e.value)
+                    if isinstance(e, ast.BinOp) and isinstance(e.op, (ast.Add, ast.Mod)):
+                        return inert(e.left) and inert(e.right)
+                    if isinstance(e, ast.Tuple):
+                        return all(inert(v) for v in e.elts)
+                    return False
+
+                if all(inert(a) for a in s.value.args) and all(inert(k.value) for k in s.value.keywords):
+                    self.stripped += 1
+                    continue
+            out.append(s)
+        if not out:
+            out = [ast.copy_location(ast.Pass(), stmts[0])] if stmts else []
+        return out
+
+    def generic_visit(self, node):
+        super().generic_visit(node)
+        if not self._skip_strip:
+            for fld in ("body", "orelse", "finalbody"):
+                v = getattr(node, fld, None)
+                if isinstance(v, list) and v and all(isinstance(x, ast.stmt) for x in v):
+                    setattr(node, fld, self._strip_logging(v))
         return node
 
     def _flip(self, node):
